@@ -1,22 +1,25 @@
 #!/bin/bash
-# tools/verifymutant.sh <patch.diff> <demo-file> <dest-path-in-tree> <go test args...>
+# tools/verifymutant.sh <patch.diff> <demo-file>=<dest-path-in-tree> [more pairs] -- <go test args...>
 # Confirms a seeded change in a throw-away worktree of /repo HEAD:
 #   (c) demonstration passes without the change, (b) fails with it,
 #   (a) the existing suite passes with it. Prints a summary (for run.txt).
 set -u
-PATCH="$(readlink -f "$1")"; DEMO="$(readlink -f "$2")"; DEST="$3"; shift 3
+PATCH="$(readlink -f "$1")"; shift
+PAIRS=()
+while [ $# -gt 0 ] && [ "$1" != "--" ]; do PAIRS+=("$1"); shift; done
+shift
 export GOFLAGS=-mod=mod GOPROXY=off GOSUMDB=off
 WT="/tmp/vm-$$-$RANDOM"
 git -C /repo worktree add -q --detach "$WT" HEAD || exit 2
 trap 'git -C /repo worktree remove --force "$WT" >/dev/null 2>&1' EXIT
-mkdir -p "$WT/$(dirname "$DEST")"; cp "$DEMO" "$WT/$DEST"
+for p in "${PAIRS[@]}"; do src="$(readlink -f "${p%%=*}")"; dst="${p#*=}"; mkdir -p "$WT/$(dirname "$dst")"; cp "$src" "$WT/$dst"; done
 cd "$WT"
 echo "== (c) demonstration on the pristine tree: go test $*"
 go test -vet=off -count=1 "$@" 2>&1 | tail -5; rc_c=${PIPESTATUS[0]}
 git apply "$PATCH" || { echo "PATCH-DOES-NOT-APPLY"; exit 3; }
 echo "== (b) demonstration with the change"
 go test -vet=off -count=1 "$@" 2>&1 | grep -v "^\s*$" | tail -12; rc_b=${PIPESTATUS[0]}
-rm -f "$WT/$DEST"
+for p in "${PAIRS[@]}"; do rm -f "$WT/${p#*=}"; done
 echo "== (a) existing suite with the change"
 go test -vet=off -count=1 ./... 2>&1 | grep -v "no test files" | tail -15; rc_a=${PIPESTATUS[0]}
 if [ $rc_a -ne 0 ]; then echo "   (re-run of failing suite once, flaky index tests)"; go test -vet=off -count=1 ./... 2>&1 | grep -v "no test files" | grep -v "^ok" | tail -8; rc_a=${PIPESTATUS[0]}; fi
